@@ -276,7 +276,8 @@ def regionMarks (g : Graph) (discarded : List Nat) : List Bool :=
 
 /-- the nodes of the discarded branches, last first (the order in which they are erased) -/
 def regionDesc (g : Graph) (discarded : List Nat) : List Nat :=
-  ((List.range g.length).filter fun i => (regionMarks g discarded).getD i false).reverse
+  let m := regionMarks g discarded
+  ((List.range g.length).filter fun i => m.getD i false).reverse
 
 /-- body of the `for n in mod.graph.nodes` loop for node `n`: positional winner,
 `replace_all_uses_with`, erase the combiner, erase the discarded branches (nothing else) -/
